@@ -1,17 +1,21 @@
 from .common import COMMON_TB
 
 CFG = dict(
-    coq="Properties/C01.v",
-    areas=["lzmaenc", "lzmadec"],
+    coq=["Properties/C01.v", "Properties/C01Lzma1.v", "Properties/C01Lzma2.v"],
+    areas=["lzmaenc", "lzmadec", "twins"],
     level="proof",
-    theorems_expected=["C01_prob_update_twins", "C01_rc_roundtrip", "C01_lit_roundtrip", "C01_len_roundtrip", "C01_dist_slot_spec", "C01_match_roundtrip", "C01_rep_roundtrip", "C01_window_decode_is_spec", "C01_chunk_roundtrip"],
+    theorems_expected=["C01_prob_update_twins", "C01_rc_roundtrip", "C01_lit_roundtrip", "C01_len_roundtrip", "C01_dist_slot_spec", "C01_match_roundtrip", "C01_rep_roundtrip", "C01_window_decode_is_spec", "C01_chunk_roundtrip",
+                       "C01_lzma1_roundtrip_raw", "C01_lzma1_roundtrip_preset", "C01_lzma1_roundtrip_header", "C01_lzma1_read_zero",
+                       "C01_lzma2_frame_sync", "C01_lzma2_roundtrip", "C01_lzma2_roundtrip_preset"],
     rule="lzmaenc: cases = (option vector lc/lp/pb/dict/nice_len/mode/mf/depth, header|marker|declared-size variant or LZMA2 chunk_size, "
          "optional preset dictionary, data from 10 compressibility classes plus multi-100-KiB structured cases crossing the LZMA2 chunk "
          "limits and the window move, write-call partition with flushes); the real LZMAWriter/LZMA2Writer runs with the symbol-trace hook, "
          "the extracted model validates the trace against the data (every literal/match is a true description of the next bytes, inside the "
          "dictionary) and re-encodes it: the bytes must be identical; the oracle decodes the stream with the crate's own reader and compares "
          "with the input. lzmadec: the readers vs the decoder model on valid, corrupted and random streams under read-size histories. "
-         "distinct_nontrivial = distinct command lines whose observation is a non-empty result",
+         "twins: (among its other commands) lzma1encb/lzma2encb run the same encoder cases with the match finders' position counter biased "
+         "(hook H2) so that the 31-bit renormalisation happens inside the run: the trace is validated and re-encoded like any other and the "
+         "output must equal the unbiased run's. distinct_nontrivial = distinct command lines whose observation is a non-empty result",
     trusted_base=COMMON_TB + ["hook H1 (verif_hooks.rs): the symbol trace is what the encoder coded (checked indirectly: re-encoding the trace must reproduce the bytes)",
                               "the parser and match finders are validated per run (verified-validator pattern), not proved"],
     assumptions=["in-memory source/sink without faults (C05)"],
